@@ -378,7 +378,7 @@ def build(ctx, t, string_is_bytes=False):
     if k in ("variant", "enum", "option", "result"):
         cs = spec.cases_of(t)
         d = ctx.fresh("gd")
-        ctx.emit("let %s: u8 = kani::any(); kani::assume((%s as usize) < %d);" % (d, d, len(cs)))
+        ctx.emit("let %s: %s = kani::any(); kani::assume((%s as usize) < %d);" % (d, "u8" if len(cs) <= 256 else "u16", d, len(cs)))
         if k == "variant":
             cons = ["%s::%s" % (rust_path(ctx, t), camel(n)) for n, _ in t.cases]
         elif k == "enum":
